@@ -109,4 +109,13 @@ TEXTS = {
                     "WordMatch::split implies a non-empty second half; empty query passes, no match => no hit; marker order "
                     "provenance; record and query tokenisers split alike. Typo-budget split arithmetic is not decided.",
             "note": NOTE},
+    "C19": {"technique": "static analysis: bounds obligations per unsafe call site discharged in a linear-inequality (zone-like) domain from MIR facts and four checked lemmas",
+            "category": "proof",
+            "text": "Every call to an unsafe fn in non-test code is an obligation (23 sites, 37 index obligations: slices need "
+                    "index < len; matrix accesses need row < size and col < size individually). Each is discharged as a positive "
+                    "combination of facts read off the MIR (enumerate/range indices, dominating guards over stable variables, the "
+                    "extend idiom) and lemmas verified on the code (accessor agreement, matrix capacity after prepare, len(raw)=size², "
+                    "posting positions < len). An undischarged site is a violation (fail closed). This is a proof over all inputs "
+                    "and histories relative to the trusted base listed in the evidence.",
+            "note": NOTE + " Additionally trusted: std semantics of range indexing, Vec::extend and enumerate as stated in evidence."},
 }
